@@ -15,6 +15,7 @@ Proved: `C06_partial` (= the full statement under `NoEviction`), `C06_static` (s
 import Verif.Lemmas.StateCacheWitness
 import Verif.Lemmas.StateCacheBound
 import Verif.Lemmas.StateCacheDrop
+import Verif.Lemmas.StateCacheLink
 namespace Verif.Props.C06
 open Verif.SC
 
@@ -97,6 +98,18 @@ theorem remove_safe_in_order (capK maxDepth : Nat) (ops : List (Op H K B V))
     (hio : InOrderRun (Sys.new capK maxDepth) [] ops) : AllOK (Sys.new capK maxDepth) [] ops :=
   Sys.run_ok_drops _ [] (fun _ => 0) ops (SysInv.init capK maxDepth) (fun _ => Nat.le_refl _) hne hio
 
+/-- non-vacuity of `remove_safe_in_order`: A writes k, B child of A writes k, `Remove(k)`, C child of B (no write), lookups
+    at C and B miss (the map is gone), D child of C writes k and re-creates the map, lookups at D hit, at C still miss -/
+def removeHistory : List (Op Nat Nat Nat Nat) :=
+  [.blk 0 10 0, .bset 0 0 1, .bcommit 0, .blk 1 11 10, .bset 1 0 2, .bcommit 1, .sget 0 11, .srem 0,
+   .blk 2 12 11, .bcommit 2, .sget 0 12, .sget 0 11, .blk 3 13 12, .bset 3 0 4, .bcommit 3, .sget 0 13, .sget 0 12]
+
+example : NoLRUEviction (Sys.new 200 2000 : Sys Nat Nat Nat Nat) removeHistory := by
+  simp only [removeHistory, NoLRUEviction, Op.isRemove]; decide
+
+example : ((Sys.new 200 2000 : Sys Nat Nat Nat Nat).run removeHistory).2 =
+    [.ok, .ok, .ok, .ok, .ok, .ok, .hit 2, .ok, .ok, .ok, .miss, .miss, .ok, .ok, .ok, .hit 4, .miss] := by decide
+
 /-- Q = block 11 (child of 10) writes k := 2 and is committed FIRST; `Remove(k)`; then its parent P = block 10 writes
     k := 1 and is committed; the lookup at Q finds no entry for Q (dropped), follows Q's link to P and returns P's value -/
 def witnessRemove : List (Op Nat Nat Nat Nat) :=
@@ -114,6 +127,34 @@ theorem remove_unsafe_out_of_order : ¬ C06_remove_full := by
     oracleN_sound (n := 2) (by decide)
   have : Entry.val (1 : Nat) = Entry.val 2 := Chain.det hans horacle
   cases this
+
+/-! ### evictions from the link cache (`hashCache`, capacity maxHisDepth = 2000) -/
+
+/-- `link_eviction_safe`: the link cache may evict at will (any capacity, any number of commits): as long as no per-key
+    version map evicts (`entryEv` unchanged), no `Remove` occurs and no block is committed a second time after its link
+    was lost, every hit at every layer carries exactly the demanded value and a removed key misses. A lost link makes
+    walks stop at a gap — it only turns hits into misses. -/
+theorem link_eviction_safe (capK maxDepth : Nat) (ops : List (Op H K B V))
+    (hne : ((Sys.new capK maxDepth : Sys H K B V).run ops).1.sc.entryEv = 0)
+    (hR : ∀ op ∈ ops, op.isRemove = false)
+    (hrc : NoRecommit (Sys.new capK maxDepth) [] ops) : AllOK (Sys.new capK maxDepth) [] ops :=
+  Sys.run_ok_links _ ops (SysInv0.init capK maxDepth) hne hR hrc
+
+/-- non-vacuity: link capacity 2, a chain A ← B ← C ← D with A writing the key; the third and fourth commits evict the
+    links of A and B. The lookup at D walks D, C and stops at the gap (B's link is gone): a miss where an unbounded link
+    cache would hit — never a wrong hit; A itself still answers. The LRU did evict (`evictions` = 2) while no version map
+    did (`entryEv` = 0). -/
+def linkHistory : List (Op Nat Nat Nat Nat) :=
+  [.blk 0 10 0, .bset 0 0 1, .bcommit 0, .blk 1 11 10, .bcommit 1, .blk 2 12 11, .bcommit 2,
+   .blk 3 13 12, .bcommit 3, .sget 0 13, .sget 0 12, .sget 0 10]
+
+example : ((Sys.new 200 2 : Sys Nat Nat Nat Nat).run linkHistory).2 =
+    [.ok, .ok, .ok, .ok, .ok, .ok, .ok, .ok, .ok, .miss, .miss, .hit 1] := by decide
+
+example : ((Sys.new 200 2 : Sys Nat Nat Nat Nat).run linkHistory).1.sc.entryEv = 0 ∧
+    0 < ((Sys.new 200 2 : Sys Nat Nat Nat Nat).run linkHistory).1.sc.evictions ∧
+    NoRecommit (Sys.new 200 2 : Sys Nat Nat Nat Nat) [] linkHistory := by
+  refine ⟨by decide, by decide, by decide⟩
 
 /-- `fork_independent`: the answer for `(k, b)` only reads the blocks on `b`'s own ancestor chain — two trees that agree
     on those blocks give the same answer. -/
